@@ -277,32 +277,47 @@ def byte_set_reaching(body, var, start, targets, preds, values=None, through_cal
         must, may = set(), set()
     for v in (values if values is not None else range(256)):
         seen = set()
-        st = [(start, True)]
+        st = [(start, True, ())]
         reach_all = True
         reach_any = False
         leaves = 0
         while st:
-            b, exact = st.pop()
+            b, exact, envt = st.pop()
             if b in tset:
                 reach_any = True
                 leaves += 1
                 continue
-            if (b, exact) in seen:
+            if (b, exact, envt) in seen:
                 continue
-            seen.add((b, exact))
+            seen.add((b, exact, envt))
+            # flags set on the way (`matches!(x, ..)` compiles to a bool local assigned true / false in the arms)
+            env = dict(envt)
+            for stt in body.blocks[b]["stmts"]:
+                if stt["k"] == "assign" and not stt["lhs"]["p"] and stt["rv"]["k"] == "use":
+                    cc = op_const(stt["rv"]["op"])
+                    ci = const_int(cc) if cc is not None else None
+                    if ci is not None:
+                        env[stt["lhs"]["l"]] = ci
+                    else:
+                        env.pop(stt["lhs"]["l"], None)
+            envt = tuple(sorted(env.items()))
             t = body.term(b)
             if t["k"] == "switch":
-                c = _eval(describe(body, t["op"]), var, v, preds)
+                plx = op_place(t["op"])
+                if plx is not None and not plx["p"] and plx["l"] in env:
+                    c = env[plx["l"]]
+                else:
+                    c = _eval(describe(body, t["op"]), var, v, preds)
                 if c is None:
                     for x in set([tb for _, tb in t["targets"]] + [t["otherwise"]]):
-                        st.append((x, False))
+                        st.append((x, False, envt))
                     continue
                 c = int(c)
                 nxt = t["otherwise"]
                 for val, tb in t["targets"]:
                     if int(val) == c:
                         nxt = tb
-                st.append((nxt, exact))
+                st.append((nxt, exact, envt))
             else:
                 succ = body.succ(b)
                 if not succ:
@@ -317,7 +332,7 @@ def byte_set_reaching(body, var, start, targets, preds, values=None, through_cal
                         leaves += 1
                         continue
                 for x in succ:
-                    st.append((x, exact))
+                    st.append((x, exact, envt))
         if reach_any:
             if values is not None:
                 may.add(v)
